@@ -2,18 +2,15 @@ SPECIFICATION Spec
 CONSTANTS
   NH = 3
   MaxBlocks = 2
-  MaxSteps = 6
+  MaxSteps = 9
   Layouts <- LayMid
   Counts <- HostCounts
   Lens <- HostLens
   NilMiner = TRUE
   Kinds <- AllKinds
   InitPools = "empty"
-  MalClasses <- MalNone
+  MalClasses <- MalAll
   GuardFit = TRUE
   Huge = 99
-  EmitOn = FALSE
-VIEW view
-INVARIANTS TypeOK Alive PostedComplete ExactRebuild
-PROPERTIES Waits TimeoutRequests ArrivalBuilds Terminal
+  EmitOn = TRUE
 CHECK_DEADLOCK FALSE
